@@ -17,6 +17,13 @@ Spec == Init /\ [][Next]_vars
 PopFormulationsAgree == Mode = "words" => PopCount(x) = SumTo(LAMBDA b : Bit(x, b - 1), 16)
 Names == <<"nanmax", "maxabs", "opposite_min", "nansum", "abssum">>
 DiscRec(flat, shape) == [a \in 1..Len(shape) |-> [n \in 1..5 |-> Reduce(Names[n], flat, shape, a - 1)]]
+\* (M) NaN entries are ignored wherever and however many they are: padding a lane with NaN on either side changes no discriminant
+\* (the harness uses it to present lanes of tens of thousands of entries, whole blocks of them NaN)
+NaNPaddingIrrelevant == (Mode = "disc" /\ Len(arr) = N) =>
+    \A a \in 1..Len(Shape) : \A n \in 1..5 : \A i \in 1..Prod(RedShape(Shape, a - 1)) :
+        LET l == Lane(arr, Shape, a - 1, i - 1) IN
+        /\ Disc(Names[n], l \o <<NaNv, NaNv>>) = Disc(Names[n], l)
+        /\ Disc(Names[n], <<NaNv>> \o l) = Disc(Names[n], l)
 \* (M) reductions only look at their own lane: the sum of per-lane counts of valid entries is the number of valid entries
 Emit == CASE Mode = "words" -> PrintT(<<"EMIT", x, PopCount(x), [b \in 1..16 |-> Bit(x, b - 1)]>>)
           [] Mode = "cases" -> PrintT(<<"EMIT", ToJson([case |-> x, res |->
